@@ -1,7 +1,506 @@
-"""C17 (bounded e2e): any input either converts or raises the library's own error type."""
+"""C17 (bounded e2e): broken forms are rejected with a located diagnosis; nothing ever crashes.
+
+Property (properties.jsonl, C17), clause by clause, and what this oracle demands for each:
+
+ N  "For any input whatsoever the only outcomes are a result or that error type, never an internal exception":
+      every converted case (harvested forms, generated forms, the vocabulary family, the fuzzed family and all
+      mutation cases) either converts or raises PyXFormError.        key  C17:internal-error:<Type>:<file>:<func>
+ R  "A form containing a structural error (...) is refused: conversion raises the library's own error type ...
+      and returns no XForm": every catalogued breaking mutation applied to a valid base form, at every site where
+      it applies, must be refused.                                    key  C17:accepted:<kind>
+ L  "... with a message identifying the problem, citing the spreadsheet row when the error belongs to a row":
+      when the mutation breaks exactly one row (the row number is computed here from the abstract workbook:
+      data row i of a sheet is spreadsheet row i + 2, blank rows count), the message must contain `[row : N]`
+      for that row (or one of the two rows for a duplicate).         keys C17:no-row:<kind>, C17:wrong-row:<kind>
+      Errors that belong to a sheet or to the form as a whole (headers, missing end with no single culprit row,
+      instance-id clashes) carry no row demand.
+
+The expectation never calls pyxform: base forms are valid by construction (and are themselves cases: a base form
+that is refused is reported as C17:base-refused), mutations are the catalogue of the property statement.
+"""
+from __future__ import annotations
+
+import random
+import re
+
 from bounded import corpus
+from bounded.corpus import Case, WB
 
 USES_DEFAULT_CORPUS = True
+N_GENERATED = {"quick": 200, "thorough": 1500}
+TIME_BUDGET_S = {"quick": 90, "thorough": 900}
+N_FUZZ = {"quick": 400, "thorough": 6000}
+
+RE_ROW = re.compile(r"\[row : (\d+)\]")
+
+SURVEY_HEADERS = ["type", "name", "label", "relevant", "constraint", "calculation", "required", "default",
+                  "parameters", "choice_filter", "repeat_count", "hint", "appearance"]
+CHOICE_HEADERS = ["list_name", "name", "label", "media::image"]
+
+
+def _row(type_=None, name=None, label=None, **kw):
+    d = {"type": type_, "name": name, "label": label}
+    d.update(kw)
+    return d
+
+
+def _wb(rows, choices=None, settings=None, extra=None, choice_headers=None):
+    """rows: list of dicts over SURVEY_HEADERS (None = blank row); choices: list of dicts."""
+    hs = [h for h in SURVEY_HEADERS if any(r and r.get(h) not in (None, "") for r in rows)] or ["type", "name", "label"]
+    for must in ("type", "name", "label"):
+        if must not in hs:
+            hs.append(must)
+    hs = [h for h in SURVEY_HEADERS if h in hs]
+    wb = WB()
+    wb["survey"] = (hs, [[(r or {}).get(h) for h in hs] for r in rows])
+    if choices is not None:
+        ch = choice_headers or [h for h in CHOICE_HEADERS if h in ("list_name", "name", "label") or any(c.get(h) for c in choices)]
+        wb["choices"] = (ch, [[c.get(h) for h in ch] for c in choices])
+    if settings:
+        wb["settings"] = (list(settings), [list(settings.values())])
+    for k, v in (extra or {}).items():
+        wb[k] = v
+    return wb
+
+
+CHOICES = [
+    {"list_name": "l", "name": "x", "label": "X"},
+    {"list_name": "l", "name": "y", "label": "Y"},
+    {"list_name": "l2", "name": "p", "label": "P"},
+    {"list_name": "l2", "name": "q", "label": "Q"},
+]
+
+
+def base_rows():
+    """A valid form with every depth: top level, group, group>repeat, group>repeat>group; a blank row inside."""
+    return [
+        _row("text", "a", "A"),                                            # row 2
+        _row("integer", "b", "B", relevant="${a} != ''"),                  # row 3
+        None,                                                              # row 4 (blank)
+        _row("begin group", "g", "G"),                                     # row 5
+        _row("select_one l", "s", "S"),                                    # row 6
+        _row("begin repeat", "r", "R"),                                    # row 7
+        _row("text", "c", "C"),                                            # row 8
+        _row("begin group", "h", "H"),                                     # row 9
+        _row("calculate", "d", None, calculation="${b} + 1"),              # row 10
+        _row("select_multiple l2", "m", "M"),                              # row 11
+        _row("end group"),                                                 # row 12
+        _row("end repeat"),                                                # row 13
+        _row("decimal", "e", "E", constraint=". > ${b}"),                  # row 14
+        _row("end group"),                                                 # row 15
+        _row("note", "n", "N ${a}"),                                       # row 16
+        _row("range", "rg", "Rg", parameters="start=1 end=5 step=1"),      # row 17
+    ]
+
+
+QUESTION_SITES = [0, 1, 4, 6, 8, 9, 12, 14]     # indices of question rows (depths 0,0,1,2,3,3,1,0)
+BEGIN_SITES = [3, 5, 7]
+END_SITES = [10, 11, 13]
+SIBLING_BEFORE = {1: 0, 6: None, 9: 8, 12: 4, 14: 1, 4: None, 8: None, 0: None}  # an earlier sibling in the same section
+
+
+def _mut(kind, tag, rows, choices=CHOICES, rows_ok=None, settings=None, extra=None, choice_headers=None):
+    wb = _wb(rows, choices, settings, extra, choice_headers)
+    c = Case(f"C17-{kind}:{tag}", wb=wb, origin="C17", tags={"mutation", kind})
+    c.expect = {"kind": kind, "rows": set(rows_ok) if rows_ok else None}
+    return c
+
+
+def _copy(rows):
+    return [dict(r) if r else None for r in rows]
+
+
+def mutation_cases(thorough: bool) -> list[Case]:
+    out = []
+    B = base_rows()
+    base = Case("C17-base:valid", wb=_wb(B, CHOICES), origin="C17", tags={"base"})
+    base.expect = {"kind": "base", "accept": True}
+    out.append(base)
+
+    # -- unbalanced / mismatched begin and end
+    for i in [0, 2, 4, 6, 8, 12, 14, 16]:
+        for t in ("end group", "end repeat", "end_group"):
+            rows = _copy(B)
+            rows.insert(i, _row(t))
+            # an end of the right kind placed inside a section closes it early: the culprit becomes a later row
+            out.append(_mut("extra-end", f"{t}@{i + 2}", rows, rows_ok=None))
+    for t in ("end group", "end repeat", "end loop"):
+        rows = _copy(B) + [_row(t)]
+        out.append(_mut("extra-end-last", f"{t}@end", rows, rows_ok=[len(rows) + 1]))
+        rows = [_row(t)] + _copy(B)
+        out.append(_mut("extra-end-first", f"{t}@first", rows, rows_ok=[2]))
+    for i in END_SITES:
+        rows = _copy(B)
+        del rows[i]
+        out.append(_mut("missing-end", f"del@{i + 2}", rows))
+    for i in END_SITES:
+        rows = _copy(B)
+        was = rows[i]["type"]
+        rows[i]["type"] = "end group" if was == "end repeat" else "end repeat"
+        out.append(_mut("mismatched-end", f"{was}->{rows[i]['type']}@{i + 2}", rows, rows_ok=[i + 2]))
+    rows = _copy(B)
+    rows.append(_row("begin group", "tail", "T"))
+    out.append(_mut("missing-end", "begin-at-end", rows))
+
+    # -- duplicate names in a section (same case / other case / group vs question)
+    for i, j in SIBLING_BEFORE.items():
+        if j is None:
+            continue
+        for f in (str, str.upper):
+            rows = _copy(B)
+            rows[i]["name"] = f(rows[j]["name"])
+            out.append(_mut("duplicate-name", f"{rows[i]['name']}@{i + 2}~{j + 2}", rows, rows_ok=[i + 2, j + 2]))
+    rows = _copy(B)
+    rows[14]["name"] = "g"
+    out.append(_mut("duplicate-name", "question~group", rows, rows_ok=[16, 5]))
+    rows = _copy(B)
+    rows[5]["name"] = "s"
+    out.append(_mut("duplicate-name", "repeat~question", rows, rows_ok=[7, 6]))
+
+    # -- invalid names
+    for i in QUESTION_SITES + BEGIN_SITES:
+        for bad in ("1a", "a b", "a$", "-a", ".a", "a/b", "é t"):
+            if not thorough and bad not in ("1a", "a b", "a$") and i not in (0, 8):
+                continue
+            rows = _copy(B)
+            rows[i]["name"] = bad
+            if i == 0:
+                rows[1]["relevant"] = None
+                rows[14]["label"] = "N"
+            if i == 1:
+                rows[8]["calculation"], rows[12]["constraint"] = "1 + 1", ". > 0"
+            out.append(_mut("invalid-name", f"{bad!r}@{i + 2}", rows, rows_ok=[i + 2]))
+    for i in QUESTION_SITES:
+        if B[i]["type"] == "note":
+            continue  # documented convenience: a note without a name gets a generated one
+        rows = _copy(B)
+        rows[i]["name"] = None
+        if i == 0:
+            rows[1]["relevant"] = None
+            rows[14]["label"] = "N"
+        if i == 1:
+            rows[8]["calculation"], rows[12]["constraint"] = "1 + 1", ". > 0"
+        out.append(_mut("missing-name", f"@{i + 2}", rows, rows_ok=[i + 2]))
+        rows = _copy(B)
+        rows[i]["type"] = None
+        out.append(_mut("missing-type", f"@{i + 2}", rows, rows_ok=[i + 2]))
+
+    # -- unknown / malformed references in every reference-bearing column
+    cols = ["relevant", "constraint", "calculation", "required", "default", "label", "hint", "choice_filter"]
+    for i in QUESTION_SITES:
+        for col in cols:
+            t = B[i]["type"]
+            if col == "choice_filter" and not t.startswith("select"):
+                continue
+            if col == "calculation" and t in ("note",):
+                continue
+            if col in ("label", "hint") and t == "calculate":
+                continue
+            if not thorough and (i + len(col)) % 3:
+                continue
+            for kind, expr in (("unknown-ref", "${nope} = 1"), ("malformed-ref", "${ a} = 1"), ("malformed-ref", "${a = 1"),
+                               ("malformed-ref", "${a b} = 1"), ("malformed-ref", "${a${b}} = 1")):
+                rows = _copy(B)
+                rows[i][col] = expr if col not in ("label", "hint") else "T " + expr
+                out.append(_mut(kind, f"{col}={expr!r}@{i + 2}", rows, rows_ok=[i + 2]))
+    rows = _copy(B)
+    rows[5]["repeat_count"] = "${nope}"
+    out.append(_mut("unknown-ref", "repeat_count@7", rows, rows_ok=[7]))
+    rows = _copy(B)
+    rows[3]["relevant"] = "${nope} = 1"
+    out.append(_mut("unknown-ref", "group-relevant@5", rows, rows_ok=[5]))
+
+    # -- ambiguous references: k same-named questions in k different sections and one reference to the name
+    for k in (2, 3, 4, 5, 6):
+        for where in ("top", "in-group", "in-repeat"):
+            rows = []
+            for n in range(k):
+                ctl = "repeat" if (where == "in-repeat" and n == 0) else "group"
+                rows += [_row(f"begin {ctl}", f"sec{n}", f"S{n}"), _row("text", "q", f"Q{n}"), _row(f"end {ctl}")]
+            ref = _row("note", "refnote", "See ${q}") if where != "in-group" else _row("calculate", "refcalc", None, calculation="concat(${q}, 'x')")
+            if where == "top":
+                rows.append(ref)
+                site = len(rows) + 1
+            else:
+                rows.insert(2, ref)
+                site = 4
+            out.append(_mut("ambiguous-ref", f"{k}-copies-{where}", rows, choices=None, rows_ok=[site]))
+
+    # -- unknown question types
+    for i in QUESTION_SITES:
+        for bad in ("textt", "select_won l", "selectone l", "select_one", "begin grp", "int eger", "text x"):
+            if not thorough and i not in (0, 8) and bad not in ("textt", "select_won l"):
+                continue
+            rows = _copy(B)
+            rows[i]["type"] = bad
+            out.append(_mut("unknown-type", f"{bad!r}@{i + 2}", rows, rows_ok=[i + 2]))
+
+    # -- missing choice list
+    for i in (4, 9, 0, 14):
+        for cmd in ("select_one", "select_multiple", "rank"):
+            rows = _copy(B)
+            rows[i]["type"] = f"{cmd} nolist"
+            rows[i]["parameters"] = None
+            out.append(_mut("missing-list", f"{cmd}@{i + 2}", rows, rows_ok=[i + 2]))
+    rows = _copy(B)
+    out.append(_mut("missing-choices-sheet", "no-choices-sheet", rows, choices=None))
+
+    # -- invalid choices: no name; duplicate names (labelled, or with a label missing on either side, or none labelled)
+    ch = [dict(c) for c in CHOICES]
+    ch[1]["name"] = None
+    out.append(_mut("choice-without-name", "l@3", _copy(B), choices=ch, rows_ok=[3]))
+    for li, (first, second) in enumerate([(0, 1), (2, 3)]):
+        for variant in ("all-labelled", "dup-unlabelled", "first-unlabelled", "none-labelled", "image-only"):
+            ch = [dict(c) for c in CHOICES]
+            ch[second]["name"] = ch[first]["name"]
+            if variant in ("dup-unlabelled", "none-labelled", "image-only"):
+                ch[second]["label"] = None
+            if variant in ("first-unlabelled", "none-labelled", "image-only"):
+                ch[first]["label"] = None
+            if variant == "image-only":
+                ch[first]["media::image"], ch[second]["media::image"] = "a.png", "b.png"
+            out.append(_mut("duplicate-choice", f"list{li}-{variant}", _copy(B), choices=ch, rows_ok=[second + 2]))
+    ch = [dict(c) for c in CHOICES] + [{"list_name": "l", "name": "x", "label": None}]
+    out.append(_mut("duplicate-choice", "third-row-unlabelled-far", _copy(B), choices=ch, rows_ok=[6]))
+
+    # -- calculate without calculation
+    for i in (8, 0, 12):
+        rows = _copy(B)
+        rows[i] = _row("calculate", rows[i]["name"], None)
+        out.append(_mut("missing-calculation", f"@{i + 2}", rows, rows_ok=[i + 2]))
+
+    # -- bad or unknown parameters
+    for i, params in [(4, "foo=1"), (4, "randomize=maybe"), (4, "seed=3"), (4, "randomize=true seed=abc"), (0, "rows=x"),
+                      (0, "foo=1"), (0, "rows"), (15, "start=a end=5"), (15, "foo=2"),
+                      (9, "randomize"), (9, "=true"), (6, "rows=2 rows=3 x")]:
+        rows = _copy(B)
+        rows[i]["parameters"] = params
+        out.append(_mut("bad-parameters", f"{params!r}@{i + 2}", rows, rows_ok=[i + 2]))
+
+    # -- headers: required header missing, two spellings of one column
+    for sheet, hdr in (("survey", "type"), ("survey", "name"), ("choices", "list_name"), ("choices", "name")):
+        wb = _wb(_copy(B), CHOICES)
+        h, r = wb[sheet]
+        wb[sheet] = ([("x_" + x if x == hdr else x) for x in h], r)
+        c = Case(f"C17-missing-header:{sheet}.{hdr}", wb=wb, origin="C17", tags={"mutation", "missing-header"})
+        c.expect = {"kind": "missing-header", "rows": None}
+        out.append(c)
+    for a, b in (("relevant", "relevance"), ("constraint_message", "constraint message"), ("label", "caption"),
+                 ("calculation", "calculate")):
+        wb = _wb(_copy(B), CHOICES)
+        h, r = wb["survey"]
+        if a not in h:
+            h = [*h, a]
+            r = [[*x, None] for x in r]
+        h = [*h, b]
+        r = [[*x, ("v" if i == 0 else None)] for i, x in enumerate(r)]
+        wb["survey"] = (h, r)
+        c = Case(f"C17-duplicate-header:{a}+{b}", wb=wb, origin="C17", tags={"mutation", "duplicate-header"})
+        c.expect = {"kind": "duplicate-header", "rows": None}
+        out.append(c)
+
+    # -- instance-id clashes: two different sources for one instance id
+    for ext_type, nm, sel in (("xml-external", "cities", "select_one_from_file cities.csv"),
+                              ("csv-external", "cities", "select_one_from_file cities.xml"),
+                              ("xml-external", "cities", "select_one_from_file cities.geojson")):
+        rows = _copy(B)
+        rows[4]["type"] = sel
+        rows.insert(0, _row(ext_type, nm))
+        out.append(_mut("instance-clash", f"{ext_type}+{sel}", rows))
+    rows = _copy(B)
+    rows[4]["choice_filter"] = "true()"
+    rows.insert(0, _row("xml-external", "l"))
+    out.append(_mut("instance-clash", "xml-external named as an itemset list", rows))
+    return out
+
+
+# ----------------------------------------------------------------------------- vocabulary (no expectation but N)
+
+SELECT_CMDS = ["select_one", "select_multiple", "rank", "select_one_external", "select_one_from_file",
+               "select_multiple_from_file", "osm", "select one", "select all that apply"]
+LIST_TOKENS = ["l", "ext", "nolist", "${a}", "${c}", "f.csv", "f.xml", "f.geojson", "f.txt", "l or_other", ""]
+EXT_SHEETS = {
+    "external_choices": (["list_name", "name", "label", "state"], [["l", "x", "X", "s1"], ["l", "y", "Y", "s1"], ["ext", "z", "Z", "s1"]]),
+    "osm": (["list_name", "name", "label"], [["l", "building", "Building"], ["building", "yes", "Yes"]]),
+}
+ODD_TYPES = ["xml-external", "csv-external", "audit", "background-audio", "background-geopoint", "start-geopoint",
+             "hidden", "trigger", "include", "username", "deviceid", "phonenumber", "geoshape", "geotrace", "video",
+             "begin loop over l", "photo", "add image prompt", "start", "end", "today", "simserial", "subscriberid",
+             "form_title", "set_form_id", "csv-external x", "range", "table-list", "select_one l or specify other"]
+
+
+def vocabulary_cases(thorough: bool) -> list[Case]:
+    out = []
+
+    def add(tag, wb):
+        out.append(Case(f"C17-vocab:{tag}", wb=wb, origin="C17", tags={"vocab"}))
+
+    # empty groups / repeats / loops: every nesting shape of up to three (possibly empty) sections
+    kinds = ["group", "repeat", "loop"]
+    n = 0
+    for k1 in kinds:
+        for shape in ("alone", "first", "last", "nested-empty", "nested-in-full", "twice", "only"):
+            for k2 in kinds[:2]:
+                rows = []
+                q = _row("text", "q0", "Q0")
+                b1 = _row(f"begin {k1}" + (" over l" if k1 == "loop" else ""), "s1", "S1")
+                e1 = _row(f"end {k1}")
+                b2, e2 = _row(f"begin {k2}", "s2", "S2"), _row(f"end {k2}")
+                if shape == "alone":
+                    rows = [q, b1, e1]
+                elif shape == "first":
+                    rows = [b1, e1, q]
+                elif shape == "last":
+                    rows = [q, b2, _row("text", "q1", "Q1"), e2, b1, e1]
+                elif shape == "nested-empty":
+                    rows = [q, b2, b1, e1, e2]
+                elif shape == "nested-in-full":
+                    rows = [q, b2, _row("text", "q1", "Q1"), b1, e1, _row("text", "q2", "Q2"), e2]
+                elif shape == "twice":
+                    rows = [b1, e1, q, _row(b1["type"], "s3", None), e1]
+                elif shape == "only":
+                    rows = [b1, e1]
+                n += 1
+                add(f"empty-{k1}-{shape}-{k2}", _wb(rows, CHOICES))
+    # select-like commands x list tokens x choice_filter x which sheets exist
+    for cmd in SELECT_CMDS:
+        for tok in LIST_TOKENS:
+            for cf in (None, "state=${a}"):
+                for sheets in ((), ("external_choices",), ("osm",), ("external_choices", "osm")):
+                    if not thorough and sheets == ("external_choices", "osm") and cf:
+                        continue
+                    rows = [_row("text", "a", "A"), _row("begin repeat", "r", "R"), _row("text", "c", "C"), _row("end repeat"),
+                            _row(f"{cmd} {tok}".strip(), "s", "S", choice_filter=cf)]
+                    add(f"{cmd}|{tok}|cf={bool(cf)}|{'+'.join(sheets) or 'choices-only'}",
+                        _wb(rows, CHOICES, extra={k: EXT_SHEETS[k] for k in sheets}))
+            rows = [_row("text", "a", "A"), _row(f"{cmd} {tok}".strip(), "s", "S")]
+            add(f"{cmd}|{tok}|no-choices-sheet", _wb(rows, None))
+    # odd / meta / external-instance types at every depth, with and without a name / label
+    for t in ODD_TYPES:
+        for depth in (0, 1, 2):
+            for named in (True, False):
+                rows = [_row("text", "a", "A")]
+                opens = [_row("begin group", "g", "G"), _row("begin repeat", "r", "R")][:depth]
+                rows += opens
+                rows.append(_row(t, "z" if named else None, "Z" if named else None))
+                rows.append(_row("text", "b", "B"))
+                rows += [_row("end repeat"), _row("end group")][2 - depth:] if depth else []
+                add(f"type={t!r}|depth={depth}|named={named}", _wb(rows, CHOICES))
+    # parameters x types
+    params = ["", "rows=3", "rows=-1", "max-pixels=abc", "max-pixels=640", "quality=low", "quality=bad", "capture-accuracy=x",
+              "start=1 end=10 step=2", "start=1;end=10", "start=1, end=10", "randomize=true", "randomize=true seed=${a}",
+              "seed=1", "value=name label=label", "value=a b", "=", "a==b", "a=b=c", "allow-mock-accuracy=maybe",
+              "incremental=true", "track-changes=true identify-user=true", "location-priority=balanced location-min-interval=1 location-max-age=0",
+              "location-priority=x", "rows = 3", "ROWS=3", "app=com.example", "app=1bad", "max-pixels=640 max-pixels=320"]
+    types = ["text", "integer", "image", "audio", "geopoint", "geoshape", "range", "select_one l", "select_multiple l",
+             "select_one_from_file f.csv", "audit", "begin repeat", "begin group", "barcode", "file", "rank l"]
+    for t in types:
+        for p in params:
+            if not thorough and (len(p) + len(t)) % 2:
+                continue
+            rows = [_row("text", "a", "A")]
+            if t.startswith("begin"):
+                rows += [_row(t, "z", "Z", parameters=p), _row("text", "b", "B"), _row("end " + t.split()[1])]
+            else:
+                rows += [_row(t, None if t == "audit" else "z", "Z", parameters=p)]
+            add(f"params|{t}|{p!r}", _wb(rows, CHOICES))
+    # reference-like strings in every column
+    refs = ["${a}", "${}", "${ }", "$ {a}", "${a}${a}", "${a}}", "{a}", "${last-saved#a}", "${last-saved#nope}", "${last-saved#}",
+            "${a.b}", "${a-}", "${1}", "${a:b}", "$", "${", "}", "${z}", "${r}", "${c}", "${s}", "instance('l')/root/item[name=${a}]/label",
+            "indexed-repeat(${c}, ${r}, 1)", "position(..)", "../a", "/data/a", ".", "..", "current()/../a", "jr:choice-name(${s}, '${s}')",
+            "pulldata('f', 'a', 'b', ${a})", "pulldata(${a})", "once(${a})", "now()", "concat(${a}, \"${a}\")", "'${a}", "\"${a}"]
+    cols = ["relevant", "constraint", "calculation", "required", "default", "label", "hint", "choice_filter", "repeat_count",
+            "parameters", "appearance", "name", "type"]
+    for col in cols:
+        for ref in refs:
+            if not thorough and (len(col) + len(ref)) % 2 and ref not in ("${}", "${z}", "${r}"):
+                continue
+            rows = [_row("text", "a", "A"), _row("begin repeat", "r", "R"), _row("text", "c", "C"), _row("end repeat"),
+                    _row("select_one l", "s", "S"), _row("text", "z", "Z")]
+            site = 1 if col == "repeat_count" else (4 if col == "choice_filter" else 5)
+            rows[site][col] = ref
+            add(f"ref|{col}|{ref!r}", _wb(rows, CHOICES))
+    # sparse sheets
+    for tag, rows in [
+        ("only-blank-rows", [None, None]),
+        ("leading-blanks", [None, None, _row("text", "a", "A")]),
+        ("label-only-row", [_row("text", "a", "A"), _row(None, None, "just a label")]),
+        ("name-only-row", [_row("text", "a", "A"), _row(None, "b", None)]),
+        ("type-only-row", [_row("text", "a", "A"), _row("text", None, None)]),
+        ("hint-only-row", [_row("text", "a", "A"), {"type": None, "name": None, "label": None, "hint": "h"}]),
+        ("no-rows", []),
+        ("only-end", [_row("end group")]),
+        ("only-begin", [_row("begin group", "g", "G")]),
+        ("begin-without-name", [_row("begin group", None, "G"), _row("text", "a", "A"), _row("end group")]),
+        ("begin-without-label", [_row("begin repeat", "r", None), _row("text", "a", "A"), _row("end repeat")]),
+        ("end-with-name", [_row("begin group", "g", "G"), _row("text", "a", "A"), _row("end group", "g", "G")]),
+        ("end-with-wrong-name", [_row("begin group", "g", "G"), _row("text", "a", "A"), _row("end group", "zz")]),
+        ("label-less-question", [_row("text", "a", None)]),
+        ("unicode-names", [_row("text", "été", "E"), _row("note", "n", "${été}")]),
+        ("vertical-tab-in-label", [_row("text", "a", "A"), _row("note", "n", "x\x0by")]),
+        ("vertical-tab-in-label-with-ref", [_row("text", "a", "A"), _row("note", "n", "x\x0by ${a}")]),
+    ]:
+        add(f"sparse|{tag}", _wb(rows, CHOICES))
+    for tag, ch in [
+        ("choices-blank-rows", [CHOICES[0], {}, CHOICES[1]]),
+        ("choices-no-list-name", [{"name": "x", "label": "X"}]),
+        ("choices-only-list-name", [{"list_name": "l"}]),
+        ("choices-label-only", [{"label": "X"}]),
+        ("choices-empty", []),
+        ("choices-name-with-space", [{"list_name": "l", "name": "a b", "label": "X"}]),
+    ]:
+        for t in ("select_one l", "select_multiple l", "rank l"):
+            add(f"sparse|{tag}|{t}", _wb([_row(t, "s", "S")], ch))
+    for tag, settings in [("settings-blank", {"form_id": None}), ("settings-odd", {"form_id": "a b", "version": "${a}", "instance_name": "${nope}"}),
+                          ("settings-name-invalid", {"name": "1 bad"}), ("settings-public-key", {"public_key": "x", "submission_url": "u"}),
+                          ("settings-default-language", {"default_language": "zz"}), ("settings-namespaces-bad", {"namespaces": "x"}),
+                          ("settings-style", {"style": "pages theme-grid"}), ("settings-allow-dup", {"allow_choice_duplicates": "maybe"})]:
+        add(f"sparse|{tag}", _wb(_copy(base_rows()), CHOICES, settings=settings))
+    return out
+
+
+FUZZ_TOKENS = ["", "${nope}", "${}", "begin group", "end group", "begin repeat", "end repeat", "select_one nolist",
+               "select_multiple ${a}", "select_one_external l0", "osm l0", "xml-external", "calculate", "1a", "a b", "yes", "no",
+               "true()", "rows=3", "foo=bar", "randomize=true", "${a} ${b}", ".", "..", "label", "name", "meta", "instanceID",
+               "data", "select_one l0 or_other", "rank l0", "range", "audit", "note", "hidden", "0", "-1", "field-list", "table-list",
+               "label", "list-nolabel", "minimal", "search('x')", "quick", "a,b", "a;b", "'", "\"", "<", "&", "]]>"]
+
+
+def fuzz_cases(tier: str, seed: int) -> list[Case]:
+    """Generated valid forms with one to three cells replaced by vocabulary tokens / moved / emptied."""
+    rnd = random.Random(seed * 7919 + 17)
+    gen = corpus.generated(seed + 1717, N_FUZZ[tier])
+    out = []
+    for g in gen:
+        wb = g.wb.copy()
+        for _ in range(rnd.choice([1, 1, 2, 3])):
+            sheet = rnd.choice([s for s in wb if wb[s][1]] or ["survey"])
+            h, rows = wb[sheet]
+            if not rows or not h:
+                continue
+            r = rnd.randrange(len(rows))
+            op = rnd.random()
+            if op < 0.1:
+                del rows[r]
+            elif op < 0.2:
+                rows.insert(r, [None] * len(h))
+            elif op < 0.3 and len(rows) > 1:
+                rows.insert(rnd.randrange(len(rows)), rows.pop(r))
+            else:
+                c = rnd.randrange(len(h))
+                while len(rows[r]) <= c:
+                    rows[r].append(None)
+                rows[r][c] = rnd.choice(FUZZ_TOKENS) if rnd.random() < 0.8 else None
+        out.append(Case(f"C17-fuzz:{g.name}", wb=wb, origin="C17", tags={"fuzz"}))
+    return out
+
+
+def cases(tier: str, seed: int) -> list[Case]:
+    thorough = tier == "thorough"
+    return mutation_cases(thorough) + vocabulary_cases(thorough) + fuzz_cases(tier, seed)
+
+
+# ----------------------------------------------------------------------------- check
 
 
 def check(case, res, ctx):
@@ -11,4 +510,24 @@ def check(case, res, ctx):
         tb = traceback.extract_tb(e.__traceback__)
         site = next((f"{f.filename.split('/pyxform/')[-1]}:{f.name}" for f in reversed(tb) if "/pyxform/" in f.filename), "?")
         return [{"key": f"C17:internal-error:{type(e).__name__}:{site}", "what": f"{type(e).__name__}: {e}"}]
+    exp = getattr(case, "expect", None)
+    if not exp:
+        return []
+    kind = exp["kind"]
+    if exp.get("accept"):
+        if not res.ok:
+            return [{"key": "C17:base-refused", "what": f"the valid base form was refused: {res.error}"}]
+        return []
+    if res.ok:
+        return [{"key": f"C17:accepted:{kind}", "what": f"broken form ({case.name}) was not refused: an XForm was returned"}]
+    msg = str(res.error)
+    if not msg.strip():
+        return [{"key": f"C17:empty-message:{kind}", "what": f"refused with an empty message ({case.name})"}]
+    want = exp.get("rows")
+    if want:
+        cited = {int(n) for n in RE_ROW.findall(msg)}
+        if not cited:
+            return [{"key": f"C17:no-row:{kind}", "what": f"the error belongs to row {sorted(want)} but the message cites no row: {msg[:200]!r}"}]
+        if not (cited & want):
+            return [{"key": f"C17:wrong-row:{kind}", "what": f"the error belongs to row {sorted(want)} but the message cites {sorted(cited)}: {msg[:200]!r}"}]
     return []
